@@ -6,15 +6,31 @@ RB = '_ZNSt8_Rb_treeIiiSt9_IdentityIiESt4lessIiESaIiEE'
 RBSET = ','.join(x + ':4' for x in [RB + '16_M_insert_uniqueIRKiEESt4pairISt17_Rb_tree_iteratorIiEbEOT_.0', '_ZSt18_Rb_tree_decrementPSt18_Rb_tree_node_base.0', '_ZSt18_Rb_tree_decrementPSt18_Rb_tree_node_base.1'])
 NOLOG = ['_ZN4util3log23LogPrintFormatInternal_[A-Za-z0-9_]*', '_ZN4util6detail24CheckNumFormatSpecifiersILj[0-9]+EEEvPKc']
 def e(nf, ncs, which, mode): return ('f%d_c%d_w%d_%s' % (nf, ncs, which, 'auto' if mode == 0 else 'man'), '%d, %d, %d, %d' % (nf, ncs, which, mode))
-ENT = [e(3, 1, 0, 0), e(3, 2, 1, 0), e(2, 2, 0, 0), e(3, 1, 0, 1), e(1, 1, 0, 0)]
+ENT = [e(3, 1, 0, 0), e(3, 2, 1, 0), e(3, 2, 0, 0), e(3, 1, 0, 1), e(3, 2, 1, 1), e(2, 1, 0, 0), e(1, 1, 0, 0)]
+ENT_SET = [e(2, 1, 0, 0), e(2, 1, 0, 1)]
+FN = ['node::BlockManager::FindFilesToPrune', 'node::BlockManager::FindFilesToPruneManual', 'node::BlockManager::CalculateCurrentUsage', 'node::BlockManager::MaxBlockfileNum/IsPruneMode/GetPruneTarget',
+      'Chainstate::GetPruneRange', 'Chainstate::SnapshotBase', 'Chainstate::GetRole', 'ChainstateManager::HistoricalChainstate', 'ChainstateManager::IsInitialBlockDownload', 'ChainstateManager::GetParams', 'CChainParams::PruneAfterHeight', 'CChain::Height']
+ST = ['node::BlockManager::PruneOneBlockFile -> recorder (per file: call count, sequence number, info at the time of the call) that resets the file info entry like the real one; block-index walk and dirty sets not executed',
+      'phantom ChainstateManager (typed zeroed storage, no constructor): placement-constructed/poked members m_options.chainparams (reference slot), m_cached_is_ibd, m_best_header, m_chainstates (vector storage set directly to 1-2 phantom Chainstates), m_blockman',
+      'phantom node::BlockManager (inside the phantom ChainstateManager): m_blockfile_info (real std::vector<CBlockFileInfo>), m_blockfile_cursors, m_prune_mode=true, m_opts.prune_target',
+      'phantom Chainstate(s): m_chain (CChain whose vector size is set directly: only Height() is read), m_from_snapshot_blockhash, m_target_blockhash, m_target_utxohash, m_assumeutxo, m_cached_snapshot_base, m_blockman/m_chainman reference slots',
+      'phantom CChainParams: nPruneAfterHeight', 'node::BlockManager::LookupBlockIndex -> the harness snapshot-base block', 'cs_main defined in the harness; pthread_mutex_lock/unlock/trylock -> success (single-threaded)',
+      'util::log::ShouldDebugLog/ShouldTraceLog nondeterministic, util::log::Log drops the entry; LogPrintFormatInternal_<...> and CheckNumFormatSpecifiers<...> emptied at IR level (noop); tinyformat -> empty strings (ref/nofmt)',
+      'assertion_fail -> CBMC assertion; std::__throw_system_error -> assertion']
+AS = ['last_prune in [0, INT_MAX] (Chainstate::FlushStateToDisk passes the tip height or max(1, min over prune locks)); manual height in [1, INT_MAX] (asserted by the code)',
+      'per file nSize + nUndoSize < 2^32 (the code adds the two uint32 fields in 32-bit arithmetic)',
+      'prune target <= INT64_MAX bytes or == PRUNE_TARGET_MANUAL (the debug log line computes int64_t(target) - int64_t(usage))',
+      'm_blockfile_info has an entry for every file number up to the write cursors (FindNextBlockPos resizes it before moving a cursor)']
 HARNESSES = [
     H('prunerange', 'prunerange.cpp', 'h_prunerange', link=['validation.cpp'], shadow=['nofmt'], unwind=4, timeout=300, objbits=10,
       functions=['Chainstate::GetPruneRange', 'Chainstate::SnapshotBase', 'CChain::Height'],
       stubs=['phantom Chainstate: m_chain (CChain, vector size set directly), m_from_snapshot_blockhash, m_assumeutxo, m_cached_snapshot_base, m_chainman/m_blockman reference slots',
              'node::BlockManager::LookupBlockIndex -> the harness snapshot-base block', 'assertion_fail -> CBMC assertion', 'tinyformat -> empty strings'],
       bounds='all 31-bit tip heights incl. empty chain, all 32-bit requested heights, all snapshot-base heights; loop-free'),
-    H('prunefiles', 'prunefiles.cpp', 'h_prunefiles', link=['node/blockstorage.cpp', 'validation.cpp'], entries=ENT, shadow=['nofmt'], noop=NOLOG, unwind=6, unwindset=RBSET, memunwind=168, timeout=300, objbits=10,
-      functions=['node::BlockManager::FindFilesToPrune', 'FindFilesToPruneManual', 'CalculateCurrentUsage', 'MaxBlockfileNum', 'Chainstate::GetPruneRange', 'ChainstateManager::HistoricalChainstate', 'IsInitialBlockDownload'],
-      stubs=['wip'],
-      bounds='wip'),
+    H('prunefiles', 'prunefiles.cpp', 'h_prunefiles', link=['node/blockstorage.cpp', 'validation.cpp'], entries=ENT, shadow=['nofmt'], noop=NOLOG, unwind=6, defines={'SETSTUB': 1}, memunwind=168, timeout=300, objbits=10,
+      functions=FN, stubs=ST + ['std::set<int>::insert (_Rb_tree<int>::_M_insert_unique) -> recorder of inserted file numbers (conditional inserts into a node container merge heap shapes; the real set is used by harness prunefiles_set)'],
+      assumptions=AS, bounds='block-file tables of 1..3 files (the highest one is the file being written), 1..2 chainstates; all sizes/height ranges (32-bit), tip/best-header/requested/snapshot heights (31-bit), prune target, PruneAfterHeight (64-bit), IBD flag, cursors, assumeutxo/target/snapshot flags symbolic; shapes: ' + ', '.join(x[0] for x in ENT)),
+    H('prunefiles_set', 'prunefiles.cpp', 'h_prunefiles_set', link=['node/blockstorage.cpp', 'validation.cpp'], entries=ENT_SET, shadow=['nofmt'], noop=NOLOG, unwind=6, unwindset=RBSET, memunwind=168, timeout=300, objbits=10,
+      functions=FN + ['std::set<int>::insert/count/size'], stubs=ST, assumptions=AS,
+      bounds='as prunefiles with a table of 2 files (one prunable file) and the real std::set<int> setFilesToPrune; shapes: ' + ', '.join(x[0] for x in ENT_SET)),
 ]
